@@ -105,6 +105,39 @@ RoutesFor(dn) ==
 SkipStride(dsch) == RecordSize(dsch)
 AllWide(dsch) == \A di \in 1..Len(dsch) : TypeSize(dsch[di].ty) = 4
 
+\* ---- column names ---------------------------------------------------------------------------------
+\* Field names are labels, not identities: schemas with repeated names ("Unknown", "Unknown", ...) are
+\* common; column i of a record is always the i-th field.  NameClasses are the shapes of the name list.
+NameClasses == {"distinct", "dupAdjacent", "dupApart", "allEqual"}
+FieldNames(dcls, dnf) ==
+    [di \in 1..dnf |->
+       CASE dcls = "allEqual" -> "Unknown"
+         [] dcls = "dupAdjacent" /\ di \in {1, 2} /\ dnf >= 2 -> "Unknown"
+         [] dcls = "dupApart" /\ di \in {1, dnf} /\ dnf >= 2 -> "Unknown"
+         [] OTHER -> "f" \o ToString(di)]
+\* the column a by-name lookup would pick for column di (first field carrying that name)
+FirstOfName(dnames, di) == CHOOSE dj \in 1..Len(dnames) : dnames[dj] = dnames[di] /\ \A dk \in 1..(dj - 1) : dnames[dk] # dnames[di]
+NamesDistinct(dnames) == \A da, db \in 1..Len(dnames) : dnames[da] = dnames[db] => da = db
+
+\* ---- key columns: order classes -------------------------------------------------------------------
+\* explicit key columns (0-based record i -> key) for small tables; dbase is the smallest key
+KeyOrders == {"ascDense", "ascGaps", "desc", "permSpan", "dupSpan"}
+KeyColumnOf(dcls, dn, dbase) ==
+    [di \in 1..dn |->
+       CASE dcls = "ascDense" -> dbase + di - 1
+         [] dcls = "ascGaps"  -> dbase + 3 * (di - 1)
+         [] dcls = "desc"     -> dbase + dn - di
+         [] dcls = "permSpan" -> IF di = 1 THEN dbase ELSE IF di = dn THEN dbase + dn - 1 ELSE dbase + dn - di   \* min first, max last, middle reversed
+         [] dcls = "dupSpan"  -> IF di = 1 THEN dbase ELSE IF di = dn THEN dbase + dn - 1 ELSE dbase + 1]      \* [b, b+1, b+1, ..., b+n-1]
+\* keys worth probing that are NOT in the column: holes inside the span, and just outside it
+AbsentProbes(dkeys, dbase) ==
+    LET dn == Len(dkeys)  dhave == {dkeys[di] : di \in 1..dn}
+        dcand == {dbase - 1} \cup {dbase + dj : dj \in 0..(3 * dn + 1)}
+    IN {dk \in dcand : dk \notin dhave}
+\* "the table is numbered consecutively" as a first/last test, and what it would license
+SpanLooksDense(dkeys) == Len(dkeys) > 0 /\ dkeys[Len(dkeys)] - dkeys[1] + 1 = Len(dkeys)
+IndexShortcutSound(dkeys) == \A di \in 1..Len(dkeys) : dkeys[di] = dkeys[1] + di - 1
+
 \* ---- key lookup ---------------------------------------------------------------------------------
 \* dkeys: the key column (one value per record, 0-based record index = position - 1)
 HashLookup(dkeys, dk) ==                          \* HashMap::insert overwrites: the LAST record wins
